@@ -102,15 +102,28 @@ Definition D (t : string) (m : option string) (k : dkind) : diag := {| d_top := 
 Definition leaf_value (top : string) (member : option string) (l : leaf) : bool * list diag :=
   if l_const l then (if l_conv_ok l then (true, []) else (false, [D top member DConv])) else (false, []).
 
+(* ---- sorting by name (sorted_by_key) ---- *)
+Fixpoint str_leb (a b : string) : bool :=
+  match a, b with
+  | EmptyString, _ => true
+  | String _ _, EmptyString => false
+  | String x r, String y s => let nx := Ascii.N_of_ascii x in let ny := Ascii.N_of_ascii y in
+                              if N.ltb nx ny then true else if N.ltb ny nx then false else str_leb r s
+  end.
+Fixpoint insert_by {A} (key : A -> string) (x : A) (l : list A) : list A :=
+  match l with [] => [x] | y :: r => if str_leb (key x) (key y) then x :: l else y :: insert_by key x r end.
+Definition sort_by {A} (key : A -> string) (l : list A) : list A := fold_right (insert_by key) [] l.
+
 (* one entry of the form: the property name and the members written below it (for a scalar: none) *)
 Record fentry := { f_name : string; f_members : list string }.
 
+(* members are written in the order of their names (Gadget::serialize_to_xml sorts the member map) *)
 Definition value_members (top : string) (ms : list leaf) : list string * list diag :=
-  (map l_name (filter (fun l => fst (leaf_value top (Some (l_name l)) l)) ms),
+  (sort_by (fun s => s) (map l_name (filter (fun l => fst (leaf_value top (Some (l_name l)) l)) ms)),
    flat_map (fun l => snd (leaf_value top (Some (l_name l)) l)) ms).
 
 Definition serial_members (top : string) (ms : list leaf) : list string * list diag :=
-  (map l_name (filter (fun l => fst (leaf_value top (Some (l_name l)) l) && l_writable l) ms),
+  (sort_by (fun s => s) (map l_name (filter (fun l => fst (leaf_value top (Some (l_name l)) l) && l_writable l) ms)),
    flat_map (fun l => let '(v, d) := leaf_value top (Some (l_name l)) l in
                       d ++ (if v && negb (l_writable l) then [D top (Some (l_name l)) DNotWritable] else [])) ms).
 
@@ -164,18 +177,6 @@ Definition const_attached (c : pctx) (a : aclass) (l : leaf) : list fentry * lis
     ((if v then [{| f_name := top; f_members := [] |}] else []),
      d ++ (if l_const l then [] else [D top None DUnusedAttached]))
   else ([], [D top None DUnusedAttached]).
-
-(* ---- sorting by name (sorted_by_key) ---- *)
-Fixpoint str_leb (a b : string) : bool :=
-  match a, b with
-  | EmptyString, _ => true
-  | String _ _, EmptyString => false
-  | String x r, String y s => let nx := Ascii.N_of_ascii x in let ny := Ascii.N_of_ascii y in
-                              if N.ltb nx ny then true else if N.ltb ny nx then false else str_leb r s
-  end.
-Fixpoint insert_by {A} (key : A -> string) (x : A) (l : list A) : list A :=
-  match l with [] => [x] | y :: r => if str_leb (key x) (key y) then x :: l else y :: insert_by key x r end.
-Definition sort_by {A} (key : A -> string) (l : list A) : list A := fold_right (insert_by key) [] l.
 
 (* ---- the three modes ---- *)
 Inductive mode := Generate | Reject | Omit.
